@@ -112,7 +112,8 @@ def coq_audit():
 
 def gen_constants():
     rc, out = sh([sys.executable, os.path.join(VERIF, "tools", "gen_constants.py")])
-    return rc, out
+    rc2, out2 = sh([sys.executable, os.path.join(VERIF, "tools", "gen_locks.py")])
+    return (rc or rc2), out + out2
 
 
 def coq_make(timeout=3000):
